@@ -332,13 +332,17 @@ def _one(build, f, t):
     B3 = build(t)
     flat = 0
     nflat = 0
+    kinds = []
+    from graphtage import Match, Replace, Remove, Insert, StringEdit
     for ed in A3.get_all_edits(B3):
         _full(ed)
         flat += int(ed.bounds().upper_bound)
         nflat += 1
+        kinds.append(next((k for c, k in ((Remove, "remove"), (Insert, "insert"), (StringEdit, "str"), (Replace, "replace"),
+                                          (Match, "match")) if isinstance(ed, c)), "other:" + type(ed).__name__))
     eq = bool(A._children == B._children) if type(A).__name__ == "CSVNode" else bool(A == B)   # CSVNode.__eq__ also equates "empty" tables
     return {"script": script, "oracle": oracle, "root": root, "edited_cost": int(edited), "flat_sum": flat,
-            "flat_n": nflat, "eq": eq, "sizes": [int(A.total_size), int(B.total_size)]}
+            "flat_n": nflat, "flat_kinds": sorted(kinds), "eq": eq, "sizes": [int(A.total_size), int(B.total_size)]}
 
 
 def impl(case):
@@ -613,6 +617,14 @@ def _pairing(node, f, t, opts, path=()):
     return out
 
 
+def _leaf_kinds(node):
+    """Kinds of the non-compound edits with a positive cost, as get_all_edits() is documented to list them."""
+    kind, fi, ti, cost, subs = node
+    if kind in ("match", "replace", "remove", "insert", "str") or kind.startswith("other:"):
+        return [kind] if isinstance(cost, int) and cost > 0 else []
+    return [k for s in subs for k in _leaf_kinds(s)]
+
+
 def monitor(case, obs):
     hits = []
     if not isinstance(obs, dict):
@@ -629,6 +641,13 @@ def monitor(case, obs):
     if isinstance(root, int):
         if not (obs["edited_cost"] == obs["flat_sum"] == root):
             raw.append(("C03", "three-views", f"annotated tree says {obs['edited_cost']}, flat edit list sums to {obs['flat_sum']}, root edit reports {root}"))
+    # ---- C01: the flat edit list (get_all_edits, --only-edits, --edit-digest) reports the same leaf edits as the tree
+    if "flat_kinds" in obs and isinstance(root, int):
+        leaves = sorted(_leaf_kinds(obs["script"]))
+        if leaves != obs["flat_kinds"]:
+            from collections import Counter
+            a, b = Counter(leaves), Counter(obs["flat_kinds"])
+            raw.append(("C01", "flat-list-differs", f"edit tree has leaf edits {dict(a - b)} that the flat edit list lacks; the flat list has {dict(b - a)} extra"))
     # ---- C02
     de = data_eq(case["f"], case["t"])
     if de is not None and isinstance(root, int):
